@@ -83,7 +83,10 @@ def format_correspondence(ctx, cases):
     read off the REAL rendered messages equals the model's; exceptions agree; validate_or_fail's outcome agrees"""
     import re as _re
     fmt = Formatter()
-    todo = [c for c in cases if c.req is not None and c.real_exc is None and c.real][: ctx.n(2500, 20000)]
+    todo = [c for c in cases if c.req is not None and c.real_exc is None and c.real]
+    # cases with a length error first (the formatter's only computation), then the rest, up to the budget
+    todo.sort(key=lambda c: 0 if any("Length" in type(e).__name__ for e in c.real) else 1)
+    todo = todo[: ctx.n(2500, 20000)]
     reqs, exp = [], []
     for c in todo:
         want = []
@@ -109,7 +112,8 @@ def format_correspondence(ctx, cases):
                     break
             n = None
             if kind in ("len", "minlen", "maxlen"):
-                mm = _re.search(r"(\d+) (?:element|symbol|item|character|byte|key)", m) or _re.search(r"but (\d+)", m) or _re.search(r"has (\d+)", m)
+                # the number the formatter COMPUTES (len(actual_value), its one raise point) — not the declared length printed before it
+                mm = _re.search(r"but it has (\d+)", m) or _re.search(r"has (\d+)", m)
                 n = int(mm.group(1)) if mm else None
             try:
                 want.append(sexp.dumps([kind, encode.canon_model_path(encode.tostr(encode.enc_path(named, c.I))) if named is not None else "?",
